@@ -94,6 +94,7 @@ type Gen struct {
 	// TargetRemovalPct: how often (percent) a single removal picks an entity that currently
 	// is a relation target.
 	TargetRemovalPct int
+	serial           int
 	// IllegalQuerySteps adds out-of-range EntityAt/Step calls to query scripts.
 	IllegalQuerySteps bool
 	// Illegal lists the illegal-argument classes to inject, IllegalPct how often (percent of ops).
@@ -401,7 +402,7 @@ func (g *Gen) Enabled() []string {
 			ok = len(free) > 0
 		case OpUnregister:
 			ok = len(used) > 0
-		case OpReset, OpGC, OpDumpLoad, OpResAdd, OpResRemove, OpTypeLimit:
+		case OpReset, OpGC, OpDumpLoad, OpResAdd, OpResRemove, OpTypeLimit, OpDumpSave, OpDumpRestore, OpLockedRegistration:
 			ok = true
 		case OpDeadRead:
 			ok = len(m.Ents) > m.NAlive
@@ -626,8 +627,11 @@ func (g *Gen) drawKind(t *rapid.T, k string) (Op, bool) {
 			return Op{}, false
 		}
 		return Op{K: k, Slot: used[rapid.IntRange(0, len(used)-1).Draw(t, "slot")]}, true
-	case OpReset, OpGC, OpDumpLoad, OpTypeLimit:
+	case OpReset, OpGC, OpDumpLoad, OpTypeLimit, OpDumpSave, OpDumpRestore:
 		return Op{K: k}, true
+	case OpLockedRegistration:
+		g.serial++
+		return Op{K: k, Ill: "locked-registration", N: g.serial}, true
 	case OpResAdd, OpResRemove:
 		// legal instances only; the illegal ones are drawn by DrawIllegal
 		cands := []int{}
